@@ -51,16 +51,15 @@ Open Scope list_scope.
 Inductive role := Init | QueryWorker | Reloader | ReloadHelper | StatsReporter | Watcher
                 | Shutdown | WindowCleaner | Offline | Unknown.
 
-Definition Q := QueryWorker.
 (* reader methods: query workers, the reloader (DB.ValidateDbKey) and the map-age reporter *)
-Definition RD := [QueryWorker; Reloader; StatsReporter].
+Definition R_READER := [QueryWorker; Reloader; StatsReporter].
 (* backend lookups reached through a reader; also at start-up (IsV2KeySyntaxUsed in openRDB) *)
-Definition LK := [QueryWorker; Reloader; StatsReporter; ReloadHelper].
+Definition R_LOOKUP := [QueryWorker; Reloader; StatsReporter; ReloadHelper].
 (* closing a backend: whoever drops the last reference *)
-Definition CL := [QueryWorker; Reloader; StatsReporter; ReloadHelper; Shutdown].
+Definition R_CLOSE := [QueryWorker; Reloader; StatsReporter; ReloadHelper; Shutdown].
 (* opening a backend *)
-Definition OP := [Init; ReloadHelper].
-Definition EVERY := [QueryWorker; Reloader; ReloadHelper; StatsReporter; Watcher; Shutdown; WindowCleaner].
+Definition R_OPEN := [Init; ReloadHelper].
+Definition R_EVERY := [QueryWorker; Reloader; ReloadHelper; StatsReporter; Watcher; Shutdown; WindowCleaner].
 
 Definition role_map : list (string * list role) := [
   (* dnsserver *)
@@ -70,10 +69,10 @@ Definition role_map : list (string * list role) := [
   ("dnsserver.FBDNSDB.Load", [Init]);
   ("dnsserver.FBDNSDB.ValidateDbKey", [Init]);
   ("dnsserver.FBDNSDB.Name", [Init; QueryWorker]);
-  ("dnsserver.FBDNSDB.ServeDNS", [Q]);
-  ("dnsserver.FBDNSDB.ServeDNSWithRCODE", [Q]);
-  ("dnsserver.FBDNSDB.QuerySingle", [Q]);
-  ("dnsserver.FBDNSDB.writeAndLog", [Q]);
+  ("dnsserver.FBDNSDB.ServeDNS", [QueryWorker]);
+  ("dnsserver.FBDNSDB.ServeDNSWithRCODE", [QueryWorker]);
+  ("dnsserver.FBDNSDB.QuerySingle", [QueryWorker]);
+  ("dnsserver.FBDNSDB.writeAndLog", [QueryWorker]);
   ("dnsserver.FBDNSDB.AcquireReader", [QueryWorker; StatsReporter]);
   ("dnsserver.FBDNSDB.Reload", [Reloader]);
   ("dnsserver.FBDNSDB.cleanupSignalFile", [Reloader]);
@@ -86,9 +85,9 @@ Definition role_map : list (string * list role) := [
   ("dnsserver.FBDNSDB.watchControlDirAndReload", [Watcher]);
   (* db *)
   ("db.Open", [Init]);
-  ("db.NewReader", RD ++ [Init]);
+  ("db.NewReader", R_READER ++ [Init]);
   ("db.NewRand", [Init]);
-  ("db.lockedSource.Int63", [Q]);
+  ("db.lockedSource.Int63", [QueryWorker]);
   ("db.lockedSource.Seed", [Init]);
   ("db.DB.Destroy", [Reloader; Shutdown]);
   ("db.DB.Reload", [Reloader]);
@@ -96,67 +95,67 @@ Definition role_map : list (string * list role) := [
   ("db.DB.ValidateDbKey", [Reloader; Init]);
   ("db.DB.validateDbKeyOrDestroy", [Reloader]);
   ("db.DB.GetStats", [StatsReporter]);
-  ("db.DataReader.Close", RD ++ [Init]);
-  ("db.DataReader.Data", RD);
-  ("db.DataReader.EcsLocation", RD);
-  ("db.DataReader.Find", RD);
-  ("db.DataReader.FindAnswer", RD);
-  ("db.DataReader.FindLocation", RD);
-  ("db.DataReader.ForEach", RD ++ [Init]);
-  ("db.DataReader.ForEachResourceRecord", RD);
-  ("db.DataReader.IsAuthoritative", RD);
-  ("db.DataReader.ResolverLocation", RD);
-  ("db.DataReader.findLocation", RD);
-  ("db.sortedDataReader.FindAnswer", RD);
-  ("db.sortedDataReader.ForEachResourceRecord", RD);
-  ("db.sortedDataReader.IsAuthoritative", RD);
-  ("db.sortedDataReader.TryForEach", RD);
-  ("db.sortedDataReader.find", RD);
-  ("db.openCDB", OP);
-  ("db.cdbdriver.Close", CL);
-  ("db.cdbdriver.ClosestKeyFinder", RD ++ [Init]);
-  ("db.cdbdriver.Find", LK);
-  ("db.cdbdriver.FindMap", LK);
-  ("db.cdbdriver.FindNext", LK ++ [Init]);
-  ("db.cdbdriver.FindStart", LK ++ [Init]);
-  ("db.cdbdriver.ForEach", LK ++ [Init]);
-  ("db.cdbdriver.FreeContext", RD ++ [Init]);
-  ("db.cdbdriver.GetLocationByMap", LK);
+  ("db.DataReader.Close", R_READER ++ [Init]);
+  ("db.DataReader.Data", R_READER);
+  ("db.DataReader.EcsLocation", R_READER);
+  ("db.DataReader.Find", R_READER);
+  ("db.DataReader.FindAnswer", R_READER);
+  ("db.DataReader.FindLocation", R_READER);
+  ("db.DataReader.ForEach", R_READER ++ [Init]);
+  ("db.DataReader.ForEachResourceRecord", R_READER);
+  ("db.DataReader.IsAuthoritative", R_READER);
+  ("db.DataReader.ResolverLocation", R_READER);
+  ("db.DataReader.findLocation", R_READER);
+  ("db.sortedDataReader.FindAnswer", R_READER);
+  ("db.sortedDataReader.ForEachResourceRecord", R_READER);
+  ("db.sortedDataReader.IsAuthoritative", R_READER);
+  ("db.sortedDataReader.TryForEach", R_READER);
+  ("db.sortedDataReader.find", R_READER);
+  ("db.openCDB", R_OPEN);
+  ("db.cdbdriver.Close", R_CLOSE);
+  ("db.cdbdriver.ClosestKeyFinder", R_READER ++ [Init]);
+  ("db.cdbdriver.Find", R_LOOKUP);
+  ("db.cdbdriver.FindMap", R_LOOKUP);
+  ("db.cdbdriver.FindNext", R_LOOKUP ++ [Init]);
+  ("db.cdbdriver.FindStart", R_LOOKUP ++ [Init]);
+  ("db.cdbdriver.ForEach", R_LOOKUP ++ [Init]);
+  ("db.cdbdriver.FreeContext", R_READER ++ [Init]);
+  ("db.cdbdriver.GetLocationByMap", R_LOOKUP);
   ("db.cdbdriver.GetStats", [StatsReporter]);
-  ("db.cdbdriver.NewContext", RD ++ [Init]);
+  ("db.cdbdriver.NewContext", R_READER ++ [Init]);
   ("db.cdbdriver.Reload", [ReloadHelper]);
-  ("db.openRDB", OP);
-  ("db.rdbdriver.Close", CL);
-  ("db.rdbdriver.ClosestKeyFinder", RD ++ [Init]);
-  ("db.rdbdriver.Find", LK);
-  ("db.rdbdriver.FindClosestKey", LK);
-  ("db.rdbdriver.FindMap", LK);
-  ("db.rdbdriver.ForEach", LK ++ [Init]);
-  ("db.rdbdriver.FreeContext", RD ++ [Init]);
-  ("db.rdbdriver.GetLocationByMap", LK);
+  ("db.openRDB", R_OPEN);
+  ("db.rdbdriver.Close", R_CLOSE);
+  ("db.rdbdriver.ClosestKeyFinder", R_READER ++ [Init]);
+  ("db.rdbdriver.Find", R_LOOKUP);
+  ("db.rdbdriver.FindClosestKey", R_LOOKUP);
+  ("db.rdbdriver.FindMap", R_LOOKUP);
+  ("db.rdbdriver.ForEach", R_LOOKUP ++ [Init]);
+  ("db.rdbdriver.FreeContext", R_READER ++ [Init]);
+  ("db.rdbdriver.GetLocationByMap", R_LOOKUP);
   ("db.rdbdriver.GetStats", [StatsReporter]);
-  ("db.rdbdriver.NewContext", RD ++ [Init]);
+  ("db.rdbdriver.NewContext", R_READER ++ [Init]);
   ("db.rdbdriver.Reload", [ReloadHelper]);
-  ("db.rdbdriver.findClosest", LK);
-  ("db.rdbdriver.findMapInSortedData", LK);
+  ("db.rdbdriver.findClosest", R_LOOKUP);
+  ("db.rdbdriver.findMapInSortedData", R_LOOKUP);
   (* dnsdata/rdb *)
-  ("rdb.NewReader", OP);
-  ("rdb.newIteratorPool", OP ++ [Offline]);
-  ("rdb.NewContext", LK ++ [Init]);
-  ("rdb.Context.Reset", RD ++ [Init]);
-  ("rdb.Context.update", LK ++ [Init]);
-  ("rdb.IteratorPool.get", LK ++ [Init]);
-  ("rdb.IteratorPool.put", LK ++ [Init]);
-  ("rdb.IteratorPool.disable", CL);
-  ("rdb.IteratorPool.enable", OP ++ [Offline]);
+  ("rdb.NewReader", R_OPEN);
+  ("rdb.newIteratorPool", R_OPEN ++ [Offline]);
+  ("rdb.NewContext", R_LOOKUP ++ [Init]);
+  ("rdb.Context.Reset", R_READER ++ [Init]);
+  ("rdb.Context.update", R_LOOKUP ++ [Init]);
+  ("rdb.IteratorPool.get", R_LOOKUP ++ [Init]);
+  ("rdb.IteratorPool.put", R_LOOKUP ++ [Init]);
+  ("rdb.IteratorPool.disable", R_CLOSE);
+  ("rdb.IteratorPool.enable", R_OPEN ++ [Offline]);
   ("rdb.RDB.CatchWithPrimary", [ReloadHelper]);
-  ("rdb.RDB.Close", CL ++ [Offline]);
-  ("rdb.RDB.Find", LK ++ [Init]);
-  ("rdb.RDB.FindClosest", LK ++ [Init]);
-  ("rdb.RDB.FindFirst", LK ++ [Init]);
-  ("rdb.RDB.ForEach", LK ++ [Init]);
-  ("rdb.RDB.get", LK ++ [Init]);
-  ("rdb.RDB.IsV2KeySyntaxUsed", OP);
+  ("rdb.RDB.Close", R_CLOSE ++ [Offline]);
+  ("rdb.RDB.Find", R_LOOKUP ++ [Init]);
+  ("rdb.RDB.FindClosest", R_LOOKUP ++ [Init]);
+  ("rdb.RDB.FindFirst", R_LOOKUP ++ [Init]);
+  ("rdb.RDB.ForEach", R_LOOKUP ++ [Init]);
+  ("rdb.RDB.get", R_LOOKUP ++ [Init]);
+  ("rdb.RDB.IsV2KeySyntaxUsed", R_OPEN);
   ("rdb.RDB.GetMemStats", [StatsReporter]);
   ("rdb.NewRDB", [Offline]);
   ("rdb.NewUpdater", [Offline]);
@@ -168,14 +167,14 @@ Definition role_map : list (string * list role) := [
   ("rdb.compileBatches", [Offline]);
   (* metrics *)
   ("metrics.NewStats", [Init]);
-  ("metrics.Stats.IncrementCounter", EVERY ++ [Init]);
-  ("metrics.Stats.IncrementCounterBy", EVERY ++ [Init]);
-  ("metrics.Stats.ResetCounter", EVERY ++ [Init]);
-  ("metrics.Stats.ResetCounterTo", EVERY ++ [Init]);
-  ("metrics.Stats.AddSample", [Q]);
+  ("metrics.Stats.IncrementCounter", R_EVERY ++ [Init]);
+  ("metrics.Stats.IncrementCounterBy", R_EVERY ++ [Init]);
+  ("metrics.Stats.ResetCounter", R_EVERY ++ [Init]);
+  ("metrics.Stats.ResetCounterTo", R_EVERY ++ [Init]);
+  ("metrics.Stats.AddSample", [QueryWorker]);
   ("metrics.Stats.Get", [StatsReporter]);
-  ("metrics.newWindow", [Q]);
-  ("metrics.slidingWindow.Add", [Q]);
+  ("metrics.newWindow", [QueryWorker]);
+  ("metrics.slidingWindow.Add", [QueryWorker]);
   ("metrics.slidingWindow.Samples", [StatsReporter]);
   ("metrics.slidingWindow.cleaner", [WindowCleaner]);
   ("metrics.slidingWindow.dropExpired", [WindowCleaner; StatsReporter])
